@@ -1,7 +1,7 @@
 (* Paths/Model.v: path spellings and the normaliser used for glob matching and baseline keys
    (src/output/path.rs normalize_for_matching / strip_current_dir / path_key), as string functions.
-   The normaliser rebuilds a path from its components: an absolute path below the current directory loses
-   that prefix (Path::strip_prefix, component-wise), backslashes become separators, `.` components and
+   The normaliser rebuilds a path from its components: backslashes become separators, an absolute path below the current directory loses
+   that prefix (Path::strip_prefix, component-wise), `.` components and
    repeated or trailing separators disappear (Path::components), the root directory marker of an absolute
    path is kept. Definitions only. *)
 From Coq Require Import NArith List Bool.
@@ -66,9 +66,10 @@ Definition strip_cwd (cwd p : str) : str :=
     match strip_pref (comps cwd) (comps p) with Some rest => join_slash rest | None => p end
   else p.
 
+(* backslashes are unified first, so a key is a fixed point whatever separators it was spelled with *)
 Definition norm (cwd p : str) : str :=
-  let u := unbackslash (strip_cwd cwd p) in
-  (if is_abs u then [c_slash] else []) ++ join_slash (comps u).
+  let q := strip_cwd cwd (unbackslash p) in
+  (if is_abs q then [c_slash] else []) ++ join_slash (comps q).
 
 (* baseline / cache key of a result path *)
 Definition key (cwd p : str) : str := norm cwd p.
